@@ -77,6 +77,19 @@ def directed_catalogs(rng, big):
         out.append((POT, [G.E('<b>x', msgstr='', comment=s)]))
     return out
 
+def format_pair_catalogs(fmts):
+    """EXHAUSTIVE: every unordered pair of positive format flags, every format alone and with each prefixed variant of itself; one
+    single-message catalog each, so that a wrong row of the data table yields a minimal replay whichever format it concerns"""
+    PO = {'is_template': False, 'is_binary': False, 'hidden': False, 'encoding': True}
+    out = []
+    for i, a in enumerate(fmts):
+        out.append((PO, [G.E(a, msgstr='x', flags=[a + '-format'])]))
+        for b in fmts[i + 1:]:
+            out.append((PO, [G.E('m', msgstr='x', flags=[a + '-format', b + '-format'])]))
+        for p, q in (('', 'no-'), ('', 'possible-'), ('', 'impossible-'), ('no-', 'possible-'), ('no-', 'impossible-'), ('possible-', 'impossible-')):
+            out.append((PO, [G.E('m', msgstr='x', flags=[p + a + '-format', q + a + '-format'])]))
+    return out
+
 def case_json(ctx, entries):
     return {'ctx': ctx, 'entries': [e.as_dict() for e in entries]}
 
@@ -116,7 +129,10 @@ def main():
         formats = {k: frozenset(v) for k, v in gettext.string_formats.items()}
     except Exception:
         formats = {}
-    fmts = sorted(formats) or G.formats()
+    # the falsifier's reference rules decide known formats and their compatibility with the HAND-MAINTAINED reference table
+    # (Spec/StringFormatsRef.lean), not with the data file the tool (and the regenerated model) read
+    ref_view = M.reference_view(formats)
+    fmts = sorted(ref_view) or G.formats()
 
     # ---------------- inputs
     seeds = corpus()
@@ -124,6 +140,7 @@ def main():
     n_cat = (60000 if big else 7000) * boost
     cases += [G.gen_catalog(rng, fmts) for _ in range(n_cat)]
     cases += directed_catalogs(rng, big)
+    cases += format_pair_catalogs(fmts)
     results = [M.run_impl(ctx, entries) for ctx, entries in cases]     # (line, attributed calls, tail)
 
     # ---------------- correspondence: real code vs Lean model
@@ -231,7 +248,7 @@ def main():
                 n = '?'
         return n
     def expected_of(ctx, entries):
-        per, tail = M.ref_rules(ctx, entries, formats, repr_of, xml_verdict, ctl_name)
+        per, tail = M.ref_rules(ctx, entries, ref_view, repr_of, xml_verdict, ctl_name)
         return [sorted(tuple(str(x) for x in item) for item in out) for out in per], [tuple(t) for t in tail]
     def observed_of(calls, tail, n):
         per = [[] for _ in range(n)]
@@ -317,14 +334,15 @@ def main():
         rule='catalogs from an entry grammar: 0-8 entries; msgid/msgctxt drawn from a pool (forces duplicates) incl. header-shaped and context-only-empty ids; plural shapes with '
              '1-4 forms (shuffled / gapped keys, empty forms, msgstr+msgstr[n], forms without msgid_plural); newline shapes on every string; flag lists of 0-9 flags from fuzzy / wrap / '
              'no-wrap / markdown-text / 45 range spellings (blanks, leading zeros, min>=max, Unicode digits, junk, 4400-digit numerals) / [no-|possible-|impossible-]<fmt>-format over '
-             'data/string-formats / near-miss flags, with duplicates and directed conflicting / redundant pairs; obsolete, previous-msgid annotations; unusual characters (explained by '
+             'data/string-formats / near-miss flags, with duplicates and directed conflicting / redundant pairs, plus EXHAUSTIVELY every pair of positive format flags and every format with each pair of its prefixed variants; obsolete, previous-msgid annotations; unusual characters (explained by '
              'msgid, reported earlier in the file, ESC[ and word+U+00BF contexts); conflict markers and near misses; `type: Content of:` comments and near misses with well- and ill-formed XML; '
              'x {po, pot} x {binary, hidden strings} x {charset usable or not}. non-trivial = distinct canonical outputs of check_messages',
         trusted=['Lean 4.33 kernel', 'axioms: propext, Classical.choice, Quot.sound only',
                  'tools/translate/msg2lean.py (regex trees -> data interpreted by the model; string-formats; probed character names)',
                  'hand-written model of check_messages / _check_message_flags / XML gate tied by the check-messages, check-message-flags, re-* and e2e-files streams',
                  'expat verdicts, tags._escape / message_repr (C02), the format checkers (C14: opaque dispatch stage) are inputs of the model',
-                 'Spec.MessageRules is my reading of data/tags + DESIGN Appendix B; ref_rules (Python) is a second, independent reading used by the falsifier'],
+                 'Spec.MessageRules is my reading of data/tags + DESIGN Appendix B; ref_rules (Python) is a second, independent reading used by the falsifier',
+                 'Spec/StringFormatsRef.lean: HAND-MAINTAINED reference of the gettext format languages and their example directives (my reading of the gettext manual); data/string-formats is pinned against its compatibility relation, and the falsifier decides format conflicts with it'],
         explanation=EXPLANATION)
 
 EXPLANATION = (
@@ -334,7 +352,7 @@ EXPLANATION = (
     'inconsistent_leading_newlines_iff, inconsistent_trailing_newlines_iff (+ considered_mem), partially_translated_message_iff, conflict_marker_in_translation_iff, '
     'unusual_character_in_translation_iff (+ mem_reported, mem_seenBefore, mem_unusualTags, reported_sorted), stray_previous_msgid_iff, unknown_message_flag_iff (+ flag_kind_known), '
     'duplicate_message_flag_iff, conflicting_message_flags_iff, redundant_message_flag_iff, invalid_range_flag_iff, range_flag_without_plural_string_iff, malformed_xml_iff, malformed_xml_only_if, '
-    'obsolete_exempt, header_entry_exempt, fuzzy_exemptions, clean_entry_silent, clean_catalog_silent, msg_nocrash, live_env_sane, live_message_tags; pins emitted_tags_pin, unusual_class_pin, '
+    'obsolete_exempt, header_entry_exempt, fuzzy_exemptions, clean_entry_silent, clean_catalog_silent, msg_nocrash, live_env_sane, live_message_tags; pins emitted_tags_pin, string_formats_compat_pin (+ positive_conflict_by_reference), prefixes_unambiguous, unusual_class_pin, '
     'unusual_class_documented, conflict_marker_pin, flag_syntax_pin, xml_gate_pin, checker_keys_pin. Test-level (correspondence, not proof): that the model IS the Python code (streams check-messages, '
     'check-message-flags, spec-vs-code, message-repr, re-unusual, re-marker, re-gate, re-range, e2e-files), expat, the format checkers behind the dispatch (C14), tags._escape inside message_repr (C02). '
     'Declarative readings of the scanners and flag shapes: duplicate_message_flag_decl_iff, conflict_marker_line_iff, lines_spec, range_flag_grammar, format_flag_shape_live, find_unusual_iff.')
